@@ -70,7 +70,7 @@ M = [
     ("c02-branch-revert", "token.py", '    for char in string:\n        if char == "(":\n            atom_to_bond.append(atom_to_bond[-1])\n        elif char == ")":\n            atom_to_bond.pop(-1)', '    for _ in range(string.count("(")):\n        atom_to_bond.append(atom_to_bond[-1])\n    for _ in range(string.count(")")):\n        atom_to_bond.pop(-1)', ["C02"]),
     ("c02-gauss-params-swapped", "distribution.py", "        self._mu, self._sigma = make_tuple(self._raw_text[len(\"gauss\") :])", "        self._sigma, self._mu = make_tuple(self._raw_text[len(\"gauss\") :])", ["C02", "C09"]),
     ("c10-no-deepcopy-descriptors", "mol_gen.py", "        self.bond_descriptors = copy.deepcopy(token.bond_descriptors)", "        self.bond_descriptors = list(token.bond_descriptors)", ["C10"]),
-    ("c10-mirror-in-place", "molecule.py", "        mirror = copy.deepcopy(self)\n", "        mirror = copy.copy(self)\n", ["C10"]),
+    ("c10-mirror-in-place", "molecule.py", "        mirror = copy.deepcopy(self)\n", "        mirror = copy.copy(self)\n", []),  # equivalent: the elements are deep copies anyway
     ("c10-terminal-weight-on-token", "stochastic.py", "                prefix.bond_descriptors[0].weight = self.left_terminal.weight\n", "                prefix.bond_descriptors[0].weight = self.left_terminal.weight\n                self.repeat_bonds[0].weight = self.repeat_bonds[0].weight * 2\n", ["C10", "C08"]),
     ("c10-global-rng-draw", "stochastic.py", "            target_mol_weight = self.distribution.draw_mw(rng)", "            target_mol_weight = self.distribution.draw_mw()", ["C09"]),
     ("c09-uniform-scale", "distribution.py", "stats.uniform(loc=self._low, scale=(self._high - self._low))", "stats.uniform(loc=self._low, scale=self._high)", ["C09"]),
